@@ -352,9 +352,9 @@ impl<'a, T: Tbl> Hist<'a, T> {
                 "and_inplace" => vec![T::t_bin_form(BinOp::And, 1, &a, &b).0],
                 "or_inplace" => vec![T::t_bin_form(BinOp::Or, 1, &a, &b).0],
                 "xor_inplace" => vec![T::t_bin_form(BinOp::Xor, 1, &a, &b).0],
-                "p_canon" if n <= 6 => vec![a.t_p_canon().0],
+                "p_canon" if n <= 8 => vec![a.t_p_canon().0],
                 "n_canon" if n <= 8 => vec![a.t_n_canon().0],
-                "npn_canon" if n <= 5 => vec![a.t_npn_canon().0],
+                "npn_canon" if n <= 6 => vec![a.t_npn_canon().0],
                 "iter-item" => T::t_all_functions(n).nth(kth).into_iter().collect(),
                 "iter-successor" => T::t_iter_from(&a).nth(1).into_iter().collect(),
                 "sop-roundtrip" if n <= 8 => {
